@@ -1,0 +1,7 @@
+//go:build !verif
+
+package inactivity
+
+import "sync/atomic"
+
+func verifRestamp(*atomic.Value) {}
